@@ -205,6 +205,33 @@ func TestC05(t *testing.T) {
 						return err
 					})
 				})
+				// a blocking command inside a DoMulti on a pool wire: cancellation must not wait out the close grace
+				scenario(run, t, "blocking-multi/"+tag, base, func(e *env) {
+					e.srv.Plan(stallUID("stall-"))
+					blk := func(uid string) rueidis.Completed {
+						return e.c.B().Arbitrary("VERIF.ECHO").Keys("k").Args(uid, "str").Blocking()
+					}
+					e.timed("DoMulti-blocking-deadline", d, func(ctx context.Context) error {
+						return e.c.DoMulti(ctx, e.echo("bm-a"), blk("stall-bm-1"))[1].Error()
+					})
+					ctx, cancel := context.WithCancel(context.Background())
+					var ret time.Time
+					done := make(chan error, 1)
+					go func() {
+						err := e.c.DoMulti(ctx, e.echo("bm-b"), blk("stall-bm-2"))[1].Error()
+						ret = time.Now()
+						done <- err
+					}()
+					time.Sleep(d)
+					at := time.Now()
+					cancel()
+					err := <-done
+					run.Observe("manual_cancels", 1)
+					run.Case(fmt.Sprintf("%s|cancel-blocking-multi|d=%v", e.name, d), true)
+					if !ret.Equal(at) || err == nil {
+						run.Violation("cancel-not-honoured", e.name+"|DoMulti-blocking", map[string]any{"scenario": e.name, "cancelled_at": at.Sub(e.t0).String(), "returned_at": ret.Sub(e.t0).String(), "err": fmt.Sprint(err)})
+					}
+				})
 				// another caller's cache flight never completes
 				scenario(run, t, "cache-flight-waiter/"+tag, base, func(e *env) {
 					e.srv.Node(addr).Exec("SET", "ck", "v")
